@@ -32,6 +32,7 @@ def main():
         if p['id'] not in want:
             continue
         xlate.COVER = set()
+        xlate.ARGCOVER = {}
         xlate.VISITED.clear()
         repo = Repo(repo_dir)
         run = Run(p['id'], 'quick', 0, repo)
@@ -67,7 +68,17 @@ def main():
             print('    never entered : %s' % ', '.join(never))
             for x in partial:
                 print('    partly        : %s' % x)
+            fixed = []
+            for node in ast.walk(tree):
+                if isinstance(node, ast.FunctionDef) and (modname, node.lineno) in xlate.ARGCOVER:
+                    rec = xlate.ARGCOVER[(modname, node.lineno)]
+                    one = ['%s=%s' % (k, next(iter(v)) if v else '?') for k, v in rec.items() if len(v) <= 1]
+                    if one:
+                        fixed.append('%s:%d(%s)' % (node.name, node.lineno, ', '.join(one)))
+            if fixed:
+                print('    never varied  : %s' % '; '.join(fixed))
     xlate.COVER = None
+    xlate.ARGCOVER = None
 
 
 if __name__ == '__main__':
